@@ -1,5 +1,5 @@
 (* C14 — request parsing accepts exactly well-formed requests and round-trips them.  Property theorems only. *)
-From Rws Require Import Str Utf8 Num Request StrLemmas Utf8Lemmas TrimLemmas RequestProofs StaticRes C14Proof.
+From Rws Require Import Str Utf8 Num Unicase Request StrLemmas Utf8Lemmas TrimLemmas RequestProofs StaticRes C14Proof.
 Open Scope N_scope.
 
 (* round trip: for every well-formed request value (known method/version, target and method without space, names without ':',
@@ -17,7 +17,7 @@ Theorem C14_accept : forall input m u v,
 Proof. exact accept. Qed.
 Theorem C14_request_line_accepts : forall line m u v,
   trim line = m ++ [SP] ++ u ++ [SP] ++ v -> ~ In 32 m -> ~ In 32 u ->
-  mem (upper m) methods = true -> mem (upper v) versions = true ->
+  mem (uupper m) methods = true -> mem (uupper v) versions = true ->
   parse_request_line line = Some (m, u, v).
 Proof. exact request_line_accepts. Qed.
 
@@ -29,22 +29,22 @@ Proof. exact reject_request_line. Qed.
 Theorem C14_request_line_rejects : forall line,
   (split_once (trim line) [SP] = None) \/
   (exists m rest, split_once (trim line) [SP] = Some (m, rest) /\
-     (mem (upper m) methods = false \/ split_once rest [SP] = None \/
-      exists u v, split_once rest [SP] = Some (u, v) /\ mem (upper v) versions = false)) ->
+     (mem (uupper m) methods = false \/ split_once rest [SP] = None \/
+      exists u v, split_once rest [SP] = Some (u, v) /\ mem (uupper v) versions = false)) ->
   parse_request_line line = None.
 Proof. exact request_line_rejects. Qed.
 Theorem C14_request_line_accept_shape : forall line m u v, parse_request_line line = Some (m, u, v) ->
   exists rest, split_once (trim line) [SP] = Some (m, rest) /\ split_once rest [SP] = Some (u, v) /\
-               mem (upper m) methods = true /\ mem (upper v) versions = true.
+               mem (uupper m) methods = true /\ mem (uupper v) versions = true.
 Proof. exact request_line_accept_shape. Qed.
 
 Theorem C14_no_panic : forall input p, parse_request input <> Panic p.
 Proof. exact parse_no_panic. Qed.
 
-Theorem C14_lookup_ci : forall r n n', lower n = lower n' -> get_header r n = get_header r n'.
+Theorem C14_lookup_ci : forall r n n', ulower n = ulower n' -> get_header r n = get_header r n'.
 Proof. exact lookup_ci. Qed.
 Theorem C14_lookup_first : forall r n h, get_header r n = Some h ->
-  exists pre post, headers r = pre ++ h :: post /\ lower (hname h) = lower n /\ Forall (fun x => lower (hname x) <> lower n) pre.
+  exists pre post, headers r = pre ++ h :: post /\ ulower (hname h) = ulower n /\ Forall (fun x => ulower (hname x) <> ulower n) pre.
 Proof. exact lookup_first. Qed.
 
 Theorem C14_nonvacuous : wf_request ex_req /\ parse_request (generate ex_req) = Ok ex_req.
